@@ -26,6 +26,12 @@ impl Alg {
             Alg::P256 => "p256",
         }
     }
+    pub fn name_long(self) -> &'static str {
+        match self {
+            Alg::Ed => "ed25519",
+            Alg::P256 => "secp256r1",
+        }
+    }
     pub fn id(self) -> i32 {
         match self {
             Alg::Ed => 0,
